@@ -1150,6 +1150,14 @@ func (e *Enc) evalClauseOpt(fr *Frame, sc *Scope, c *Clause) (t T, ok bool) {
 					t, ok = True, false
 					return
 				}
+				for _, cs := range fr.contract.Calls {
+					for _, l := range cs.Lets {
+						if string(u) == "unknown identifier in contract: "+l.Label {
+							t, ok = True, false
+							return
+						}
+					}
+				}
 				for _, cs := range fr.contract.Cuts {
 					for _, l := range cs.Lets {
 						if string(u) == "unknown identifier in contract: "+l.Label {
